@@ -700,15 +700,26 @@ def _run_unwrap(ctx, drv, rng, max_layers, per_layer, codes):
     ctx.sample({'op': 'unwrap', 'frame': lean.hexs(stim[-1][0]), 'expect': stim[-1][1], 'model': models[-1]})
 
 
+def _netfn_cmd(rng):
+    """a request's network function and command: anything but Send Message itself (App/34h); command id 34h in the
+    other network functions is in"""
+    netfn, cmd = rng.randrange(32) * 2, gen_hdr(rng)[6]
+    if cmd == SEND_MESSAGE and netfn == NETFN_APP:
+        netfn = HPM_UPGRADE_STATUS[0]
+    return {'netfn': netfn, 'cmd': cmd}
+
+
 def _scenario(rng, routing, **kw):
     sc = {'routing': routing, 'slave': rnglib.boundary_int(rng, 8), 'target': rnglib.boundary_int(rng, 8),
-          'lun': rng.randrange(4), 'netfn': rng.randrange(32) * 2, 'cmd': gen_hdr(rng)[6],
+          'lun': rng.randrange(4), **_netfn_cmd(rng),
           'data': lean.hexs(gen_bytes(rng, rng.choice((0, 1, 40, rng.randrange(0, 41))))),
           'seq0': rng.choice((0, 62, 63, rng.randrange(64))), 'acks': 0, 'final': 'wrapped', 'max_retries': 0,
           'body': lean.hexs(bytes([rng.choice((0, 0, 0xc1))]) + gen_bytes(rng, rng.randrange(0, 41)))}
     if sc['cmd'] == SEND_MESSAGE and sc['netfn'] == NETFN_APP:
         sc['netfn'] = HPM_UPGRADE_STATUS[0]
     sc.update(kw)
+    if not sc['routing'] and not sc['target']:
+        sc['target'] = 0x20          # Target(0) without routing has no address at all (`if ipmb_address:`)
     return sc
 
 
@@ -771,7 +782,7 @@ def _run_transport(ctx, drv, rng, depths, rounds):
                         return
                     routing = gen_routing(rng, d)
                     sc = {'routing': routing, 'slave': rnglib.boundary_int(rng, 8), 'target': rnglib.boundary_int(rng, 8),
-                          'lun': rng.randrange(4), 'netfn': rng.randrange(32) * 2, 'cmd': gen_hdr(rng)[6],
+                          'lun': rng.randrange(4), **_netfn_cmd(rng),
                           'data': lean.hexs(gen_bytes(rng, rng.choice((0, 1, 40, rng.randrange(0, 41))))),
                           'seq0': rng.choice((0, 62, 63, rng.randrange(64))), 'acks': acks,
                           'final': final, 'max_retries': 0,
@@ -841,8 +852,8 @@ def _run_reroute(ctx, drv, rng, n_random, max_depth):
         judge_bridge(ctx, drv, routing, hdr, seq, payload, m, as_string, 0, history)
         if with_transport and history and ctx.time_left() > 20:
             sc = {'routing': routing, 'history': history, 'as_string': as_string, 'slave': rnglib.boundary_int(rng, 8),
-                  'target': rnglib.boundary_int(rng, 8), 'lun': rng.randrange(4), 'netfn': rng.randrange(32) * 2,
-                  'cmd': gen_hdr(rng)[6], 'data': lean.hexs(gen_bytes(rng, rng.randrange(0, 8))),
+                  'target': rnglib.boundary_int(rng, 8), 'lun': rng.randrange(4), **_netfn_cmd(rng),
+                  'data': lean.hexs(gen_bytes(rng, rng.randrange(0, 8))),
                   'seq0': rng.randrange(64), 'acks': rng.choice((0, 0, 1)) if len(routing) >= 2 else 0,
                   'final': rng.choice(('wrapped', 'plain')), 'max_retries': 0,
                   'body': lean.hexs(bytes([0]) + gen_bytes(rng, rng.randrange(0, 8)))}
@@ -895,7 +906,7 @@ def _run_transport_codes(ctx, drv, rng):
                 ctx.notes.append('transport code sweep stopped early (time budget)')
                 return
             sc = {'routing': gen_routing(rng, d), 'slave': 0x81, 'target': rnglib.boundary_int(rng, 8),
-                  'lun': rng.randrange(4), 'netfn': rng.randrange(32) * 2, 'cmd': gen_hdr(rng)[6],
+                  'lun': rng.randrange(4), **_netfn_cmd(rng),
                   'data': lean.hexs(gen_bytes(rng, rng.randrange(0, 5))), 'seq0': rng.randrange(64), 'acks': 0,
                   'final': 'error', 'max_retries': mr, 'body': '00', 'fail_layer': (cc // 2) % (d - 1), 'cc': cc}
             ctx.case(('transport-cc', d, mr, cc, sc['fail_layer']))
